@@ -83,7 +83,7 @@ class Rendered(object):
 
 
 def render_feature(shape, fidx=0, markers=False, indent="  ", blank=0, step_kw=("Given", "When", "Then", "And", "But"),
-                   filename=None):
+                   filename=None, ptags=()):
     """Render one feature shape.  Returns a Rendered with .lines and the index."""
     out = Rendered()
     out.filename = filename or "f%d.feature" % fidx
@@ -101,9 +101,14 @@ def render_feature(shape, fidx=0, markers=False, indent="  ", blank=0, step_kw=(
         out.by_id[e.eid] = e
         return e
 
+    def pt(eid):
+        # provenance-coded candidate tags: "<name>__<element id>" (presence is decided symbolically)
+        return ["%s__%s" % (t, eid) for t in ptags]
+
     fid = "f%d" % fidx
-    emit_tags(shape["tags"], "")
-    fe = reg(Elem(fid, "feature", emit("Feature: %s" % (shape.get("name") or fid)), shape["tags"]))
+    ftags = list(shape["tags"]) + pt(fid)
+    emit_tags(ftags, "")
+    fe = reg(Elem(fid, "feature", emit("Feature: %s" % (shape.get("name") or fid)), ftags))
     out.features.append(fe)
 
     def bg(container, n, ind):
@@ -128,7 +133,7 @@ def render_feature(shape, fidx=0, markers=False, indent="  ", blank=0, step_kw=(
                 emit("")
             iid = "%s.i%d" % (container.eid, i)
             if it["k"] == "s":
-                tags = list(it["tags"]) + (["m_" + iid] if markers else [])
+                tags = list(it["tags"]) + (["m_" + iid] if markers else []) + pt(iid)
                 emit_tags(tags, ind)
                 e = reg(Elem(iid, "scenario", emit(ind + "Scenario: %s" % iid), tags, container))
                 e.marker = "m_" + iid if markers else None
@@ -138,7 +143,7 @@ def render_feature(shape, fidx=0, markers=False, indent="  ", blank=0, step_kw=(
                     e.own_steps.append(src)
                 e.steps = inherited(container) + e.own_steps
             elif it["k"] == "o":
-                tags = list(it["tags"]) + (["m_" + iid] if markers else [])
+                tags = list(it["tags"]) + (["m_" + iid] if markers else []) + pt(iid)
                 emit_tags(tags, ind)
                 o = reg(Elem(iid, "outline", emit(ind + "Scenario Outline: %s" % iid), tags, container))
                 o.marker = "m_" + iid if markers else None
@@ -148,20 +153,22 @@ def render_feature(shape, fidx=0, markers=False, indent="  ", blank=0, step_kw=(
                     o.own_steps.append(src)
                 for j, ex in enumerate(it["ex"]):
                     xid = "%s.e%d" % (iid, j)
-                    xtags = list(ex["tags"]) + (["m_" + xid] if markers else [])
+                    xtags = list(ex["tags"]) + (["m_" + xid] if markers else []) + pt(xid)
                     emit_tags(xtags, ind + indent)
                     x = reg(Elem(xid, "examples", emit(ind + indent + "Examples: %s" % xid), xtags, o))
                     x.marker = "m_" + xid if markers else None
                     emit(ind + indent * 2 + "| x |")
                     for r in range(ex["rows"]):
                         rid = "%s.r%d" % (xid, r)
-                        row = reg(Elem(rid, "row", emit(ind + indent * 2 + "| %d |" % r), tags + xtags, o))
+                        rtags = [t.replace("<x>", str(r)) for t in tags] + xtags
+                        row = reg(Elem(rid, "row", emit(ind + indent * 2 + "| %d |" % r), rtags, o))
                         row.examples = x
                         row.own_steps = list(o.own_steps)
                         row.steps = inherited(container) + row.own_steps
             else:
-                emit_tags(it["tags"], ind)
-                r = reg(Elem(iid, "rule", emit(ind + "Rule: %s" % iid), it["tags"], container))
+                rtags_ = list(it["tags"]) + pt(iid)
+                emit_tags(rtags_, ind)
+                r = reg(Elem(iid, "rule", emit(ind + "Rule: %s" % iid), rtags_, container))
                 bg(r, it.get("bg", 0), ind + indent)
                 items(r, it["items"], ind + indent)
 
